@@ -51,12 +51,12 @@ def body(c):
         "formulations TLC compares on every line-class sequence up to the "
         "bound; states/transitions)." %
         ("of the first seed of every kind" if c.tier == "quick"
-         else "of every seed", stats["truncation_inputs"], stats["fuzz_inputs"], 10))
+         else "of every seed", stats["truncation_inputs"], stats["fuzz_inputs"], 20))
     c.cov["trusted_base"] = [
         "TLC 1.8", "LoadContract.tla (outcome contract from the property text, "
         "vnaerr(3), vnacal(3), vnadata(3))",
         "clang ASan/UBSan (memory safety, UB) and LSan probe after every input",
-        "per-input alarm(10 s) for termination",
+        "per-input alarm(20 s) for termination",
         "harness observations: readable (no error callback from any getter), "
         "same content after re-save at 17 digits / VNACAL_MAX_PRECISION "
         "(relative 1e-9 of the largest cell per frequency for vnadata; byte "
